@@ -180,13 +180,15 @@ vals = ("Symbolic: the default of every flavor's own instance variable, the cons
         "that sampled cases of larger programs are not all cut by the carve-outs). ")
 regions = ("Known-finding regions are delimited with a 30-line replica of insertMethod's placement walk applied to lists of "
            "flavor indexes (zzC11Replica; used for the carve predicates only, the oracle is the component order computed from "
-           "the written DAG): C11-insert-alias = some late insertion lands inside a list; C11-insert-position = some final "
-           "table differs from component order and no aliasing happened; C11-whopper-skip = for some flavor the providers in "
+           "the written DAG): C11-vanilla-before-components = (message :init only) at some defflavor the copied lists put "
+           "vanilla-flavor's entry in front of a later component's entry; C11-insert-alias = some late insertion lands inside a "
+           "list; C11-insert-position = some final table differs from component order and no aliasing happened (the three are "
+           "made disjoint in that order); C11-whopper-skip = for some flavor the providers in "
            "component order contain a whopper directly behind a non-first whopper that runs (flavors outside that pattern are "
            "checked before the carve). ")
 specs = [
     dict(common, id="C11.send", entry="VerifC11Send", cases={"quick": send_q, "thorough": send_t}, reach=["sent"],
-         carves=["C11-insert-alias", "C11-insert-position", "C11-whopper-skip"],
+         carves=["C11-vanilla-before-components", "C11-insert-alias", "C11-insert-position", "C11-whopper-skip"],
          note="Real defflavor/defmethod/defwhopper/continue-whopper/make-instance/send evaluated through the registry for a DAG "
               "of n flavors. Quick: the 10 shapes of 3 flavors x (one 3-method assignment x EVERY order + 4 assignments of <= 4 "
               "methods x 4 sampled orders), the 7 connected 3-flavor shapes x 2 assignments on :init x every order, both 2-flavor "
